@@ -111,6 +111,7 @@ func (stage *shardScanStage) NextStages() (stages []Stage) {
 			IsMultiField:          len(shardExecuteContext.StorageExecuteCtx.Fields) > 1,
 			IsGrouping:            shardExecuteContext.StorageExecuteCtx.Query.HasGroupBy(),
 			PendingDataLoadTasks:  atomic.NewInt32(0),
+			Reduced:               atomic.NewBool(false),
 		}
 
 		stages = append(stages, NewGroupingStage(stage.leafExecuteCtx, dataLoadCtx, stage.shard))
